@@ -77,7 +77,17 @@ var properties = []Property{
 		Rules:     []string{"OPT.chain", "OPT.nointerference", "PANIC.progress", "POS.stale"},
 		Technique: "exhaustive abstract evaluation of one loop iteration over the finite partition (token class × state kind × last type × 2^7 option sets); information-flow check from options to scanner movement",
 	},
-	 {ID: "C16"}, {ID: "C17"}, {ID: "C18"}, {ID: "C19"}, {ID: "C20"},
+	 
+	{ID: "C16", Title: "Symbol tables return the longest registered symbol with its own type",
+		Rules:     []string{"SYM.valid", "SYM.ancestry", "SCAN.symbol", "MAP.flow", "MAP.order", "SCAN.balance"},
+		Technique: "who-may-write rule for the validity/type marks, slice-ownership rule for the memoised text, per-level read/unread path counting",
+	},
+	 
+	{ID: "C17", Title: "Character-class maps answer with the latest covering registration",
+		Rules:     []string{"MAP.flow", "MAP.order", "MAP.split", "MAP.disable", "MAP.callers", "PANIC.index"},
+		Technique: "value-flow of Lookup's results, insertion/search order agreement, boundary-constant agreement, dominating-guard bounds proof",
+	},
+	 {ID: "C18"}, {ID: "C19"}, {ID: "C20"},
 }
 
 func init() {
